@@ -1,5 +1,6 @@
 //! E3: loopback peers around the real Listener and the real gRPC / HTTP / Agones adapters.
 mod net;
+mod c01;
 mod c08;
 mod c11;
 mod c12;
@@ -24,6 +25,7 @@ fn main() {
     let cli = common::cli();
     net::raise_fd_limit();
     match cli.id.as_str() {
+        "C01" => c01::run(cli),
         "C08" => c08::run(cli),
         "C11" => c11::run(cli),
         "C12" => c12::run(cli),
